@@ -9,6 +9,7 @@ import (
 	"net/http/httptest"
 	"strconv"
 	"strings"
+	"sync"
 	"unicode"
 
 	"github.com/safing/portbase/formats/dsd"
@@ -27,6 +28,29 @@ type exec struct {
 	mtype string
 	req   *http.Request
 	resp  *http.Response
+}
+
+var (
+	wireOnce sync.Once
+	wireSrv  *httptest.Server
+)
+
+// wireServer: one echo server for the whole run.
+func wireServer() *httptest.Server {
+	wireOnce.Do(func() {
+		wireSrv = httptest.NewServer(http.HandlerFunc(func(w http.ResponseWriter, r *http.Request) {
+			tag := r.URL.Query().Get("t")
+			t := newTarget(tag)
+			if _, err := dsd.LoadFromHTTPRequest(r, t); err != nil {
+				http.Error(w, "load: "+err.Error(), http.StatusBadRequest)
+				return
+			}
+			if err := dsd.DumpToHTTPResponse(w, r, dumpArg(tag, t)); err != nil {
+				http.Error(w, "dump: "+err.Error(), http.StatusNotAcceptable)
+			}
+		}))
+	})
+	return wireSrv
 }
 
 func newExec(*hxlib.Run) hxlib.Exec {
@@ -333,9 +357,11 @@ func (e *exec) Do(line string) string {
 		if err != nil {
 			st = "err " + errClass(err, false)
 		}
-		body := append([]byte(nil), rec.Body.Bytes()...)
-		hdr := rec.Header().Clone()
-		e.resp = &http.Response{StatusCode: rec.Code, Header: hdr, Body: io.NopCloser(bytes.NewReader(body))}
+		// what a client would see: the recorder's snapshot of the headers at the time of the first write
+		res := rec.Result()
+		body, _ := io.ReadAll(res.Body)
+		hdr := res.Header
+		e.resp = &http.Response{StatusCode: res.StatusCode, Header: hdr, Body: io.NopCloser(bytes.NewReader(body))}
 		e.resp.Request = e.req
 		return fmt.Sprintf("%s ct=%s body=%s", st, headerHex(hdr, "Content-Type"), hxlib.Hex(body))
 	case f[0] == "setresp" && len(f) == 3 && isHex(f[2]):
@@ -358,6 +384,41 @@ func (e *exec) Do(line string) string {
 		format, err := dsd.LoadFromHTTPResponse(e.resp, t)
 		e.resp.Body = io.NopCloser(bytes.NewReader(body))
 		return e.showLoad(format, err, t)
+
+	// ---- over a real HTTP connection (implementation + monitor only): the client dumps the value into a request,
+	// an httptest.Server loads it and dumps it back into the response as the request's Accept header asks, the
+	// client loads the response
+	case (f[0] == "wire" && len(f) == 2) || (f[0] == "wirea" && len(f) == 2 && isHex(f[1])):
+		srv := wireServer()
+		req, err := http.NewRequest(http.MethodPost, srv.URL+"/?t="+e.tag, nil)
+		if err != nil {
+			return "err newrequest"
+		}
+		if f[0] == "wire" {
+			format, ok := parseU8(f[1])
+			if !ok {
+				return "bad-op"
+			}
+			if err := dsd.DumpToHTTPRequest(req, arg, format); err != nil {
+				return "err dump " + errClass(err, false)
+			}
+		} else {
+			if err := dsd.DumpToHTTPRequest(req, arg, dsd.JSON); err != nil {
+				return "err dump " + errClass(err, false)
+			}
+			req.Header.Set("Accept", string(hxlib.UnHex(f[1])))
+		}
+		resp, err := srv.Client().Do(req)
+		if err != nil {
+			return "err transport"
+		}
+		defer resp.Body.Close()
+		if resp.StatusCode != http.StatusOK {
+			return fmt.Sprintf("err status %d", resp.StatusCode)
+		}
+		t := newTarget(e.tag)
+		format, err := dsd.LoadFromHTTPResponse(resp, t)
+		return e.showLoad(format, err, t) + " ct=" + hxlib.Hex([]byte(resp.Header.Get("Content-Type")))
 
 	// ---- the model's string functions against Go's unicode tables (whole code space) -----------------------
 	case f[0] == "lowerscan" && len(f) == 1:
